@@ -207,6 +207,24 @@ pub fn scheme_family(which: usize) -> SchemeSpec {
             lists: vec![],
             nil_ne: true,
         },
+        // legal but unusual field names (a scheme accepts any string): JSON keys needing escapes, non-ASCII, `$`-prefixed,
+        // empty, long; such fields cannot be named in a filter (generated filters that use them are discarded)
+        6 => SchemeSpec {
+            family: "weird_names",
+            fields: vec![
+                f("plain", Bytes, true),
+                f("a-b c", Int, true),
+                f("é.ü", Bytes, true),
+                f("$x", Ip, true),
+                f("", Bool, true),
+                f("q\"uote\\back", Array(b(Bytes)), true),
+                f(&"long.".repeat(40), Map(b(Int)), true),
+                f("nl\nname\t", Map(b(Bytes)), true),
+            ],
+            functions: vec!["echo", "lower"],
+            lists: vec![],
+            nil_ne: true,
+        },
         _ => SchemeSpec {
             family: "all_optional",
             fields: vec![f("x", Int, true), f("y", Bytes, true), f("z", Ip, true), f("w", Bool, true), f("m", Map(b(Bytes)), true)],
